@@ -258,6 +258,19 @@ pub fn exec_direct(store: &mut AnnotationStore, m: &Model, op: &Op) -> ExecResul
             let b = data_builder(m, &spec);
             res(catch(|| store.insert_data(b)), |(_, d)| Some(d.as_usize()))
         }
+        Op::AddKey { s, key } => {
+            let ts = m.set_target(s);
+            let sreq: BuildItem<AnnotationDataSet> = bi(&ts.req);
+            let key = key.clone();
+            res(
+                catch(|| -> Result<DataKeyHandle, StamError> {
+                    let h = store.dataset(sreq).map(|d| d.handle()).ok_or(StamError::OtherError("dataset not found"))?;
+                    let set: &mut AnnotationDataSet = <AnnotationStore as StoreFor<AnnotationDataSet>>::get_mut(store, h)?;
+                    <AnnotationDataSet as StoreFor<DataKey>>::insert(set, DataKey::new(key))
+                }),
+                |h| Some(h.as_usize()),
+            )
+        }
         Op::Annotate { id, target, data } => {
             let b = annotation_builder(m, id, target, data);
             res(catch(|| store.annotate(b)), |h| Some(h.as_usize()))
